@@ -19,7 +19,7 @@ open LyModel LyModel.Tree
 
 inductive Op where
   | create | delete | replace | none
-  deriving Repr, BEq, DecidableEq, Inhabited
+  deriving Repr, DecidableEq, Inhabited
 
 def Op.str : Op → String
   | .create => "create" | .delete => "delete" | .replace => "replace" | .none => "none"
@@ -363,59 +363,67 @@ def wrapParent (S : Schema) (top : Bool) (st : St) (a b : DNode) (sub : St) : St
   let p := DNode.inner hdr.sid { hdr.flags with dflt := hdr.flags.dflt && sub.out.all (·.flags.dflt) } metas (hdr.kids ++ sub.out)
   { st.emit (insertBySchema p st.out) sub.side (sub.fd + 1) with ptr := 0 }
 
+/-- first pass of `lyd_diff_siblings_r`, one node `a = first[i]`: delete / replace / none, then the recursion into the
+matched pair (`recur` = `lyd_diff_siblings_r` on the children) -/
+def phase1Step (S : Schema) (defaults top : Bool) (recur : List DNode → List DNode → St) (first second : List DNode)
+    (st : St) (p : DNode × Nat) : St :=
+  let a := p.1
+  let i := p.2
+  if a.flags.dflt && !defaults then st else
+  let (m, used') := findMatch S second a defaults st.used
+  let st := { st with used := used' }
+  let st :=
+    if S.isUserOrd a.sid then
+      let item := uoGet st.uo a.sid first true
+      match m with
+      | Option.none =>
+        let (atrO, item') := userordAttrs S defaults first second item (some i) Option.none
+        let st := { st with uo := uoSet st.uo item' }
+        match atrO with
+        | some atr => st.add S a atr false
+        | Option.none => st
+      | some _ => { st with uo := uoSet st.uo item }
+    else
+      match plainAttrs S defaults (some a) (m.bind (second[·]?)) with
+      | some atr =>
+        if atr.op == .delete then st.add S a atr false
+        else match m.bind (second[·]?) with
+          | some b => st.add S b atr true
+          | Option.none => st
+      | Option.none => st
+  match m.bind (second[·]?) with
+  | some b => wrapParent S top st a b (recur (noKeys S a.kids) (noKeys S b.kids))
+  | Option.none => st
+
+/-- second pass, one node `b = second[j]`: create, user-ordered create / move -/
+def phase2Step (S : Schema) (defaults : Bool) (first second : List DNode) (st : St) (p : DNode × Nat) : St :=
+  let b := p.1
+  let j := p.2
+  if b.flags.dflt && !defaults then st else
+  let (m, used') := findMatch S first b defaults st.used
+  let st := { st with used := used' }
+  if S.isUserOrd b.sid then
+    let item := uoGet st.uo b.sid first m.isSome
+    let (atrO, item') := userordAttrs S defaults first second item m (some j)
+    let st := { st with uo := uoSet st.uo item' }
+    match atrO with
+    | some atr => st.add S b atr true
+    | Option.none => st
+  else
+    match m with
+    | Option.none => st.add S b { op := .create } true
+    | some _ => st
+
+/-- between the passes: reset all cached positions; the second pass has its own duplicate-instance cache -/
+def resetPhase (st : St) : St :=
+  { st with uo := st.uo.map (fun it => { it with pos := 0 }), used := [] }
+
 /-- `lyd_diff_siblings_r(first, second, options, 0, diff)` for one sibling level; `top`: the level of the diff roots -/
 def diffSiblings (S : Schema) (defaults : Bool) : (fuel : Nat) → (top : Bool) → (first second : List DNode) → St
   | 0, _, _, _ => {}
   | fuel + 1, top, first, second =>
-    -- first pass: delete, replace, none
-    let st1 := first.zipIdx.foldl (fun (st : St) (p : DNode × Nat) =>
-      let a := p.1
-      let i := p.2
-      if a.flags.dflt && !defaults then st else
-      let (m, used') := findMatch S second a defaults st.used
-      let st := { st with used := used' }
-      let st :=
-        if S.isUserOrd a.sid then
-          let item := uoGet st.uo a.sid first true
-          match m with
-          | Option.none =>
-            let (atrO, item') := userordAttrs S defaults first second item (some i) Option.none
-            let st := { st with uo := uoSet st.uo item' }
-            match atrO with
-            | some atr => st.add S a atr false
-            | Option.none => st
-          | some _ => { st with uo := uoSet st.uo item }
-        else
-          match plainAttrs S defaults (some a) (m.bind (second[·]?)) with
-          | some atr =>
-            if atr.op == .delete then st.add S a atr false
-            else match m.bind (second[·]?) with
-              | some b => st.add S b atr true
-              | Option.none => st
-          | Option.none => st
-      match m.bind (second[·]?) with
-      | some b => wrapParent S top st a b (diffSiblings S defaults fuel false (noKeys S a.kids) (noKeys S b.kids))
-      | Option.none => st) ({} : St)
-    -- reset all cached positions; the second pass has its own duplicate-instance cache
-    let st1 := { st1 with uo := st1.uo.map (fun it => { it with pos := 0 }), used := [] }
-    -- second pass: create, user-ordered move
-    second.zipIdx.foldl (fun (st : St) (p : DNode × Nat) =>
-      let b := p.1
-      let j := p.2
-      if b.flags.dflt && !defaults then st else
-      let (m, used') := findMatch S first b defaults st.used
-      let st := { st with used := used' }
-      if S.isUserOrd b.sid then
-        let item := uoGet st.uo b.sid first m.isSome
-        let (atrO, item') := userordAttrs S defaults first second item m (some j)
-        let st := { st with uo := uoSet st.uo item' }
-        match atrO with
-        | some atr => st.add S b atr true
-        | Option.none => st
-      else
-        match m with
-        | Option.none => st.add S b { op := .create } true
-        | some _ => st) st1
+    let st1 := first.zipIdx.foldl (phase1Step S defaults top (diffSiblings S defaults fuel false) first second) {}
+    second.zipIdx.foldl (phase2Step S defaults first second) (resetPhase st1)
 
 /-- `lyd_diff_siblings(first, second, options, &diff)`: all diff siblings, and the index of the one `*diff` points to -/
 def diffFull (S : Schema) (defaults : Bool) (first second : List DNode) : List DNode × Nat :=
